@@ -65,6 +65,7 @@ pub struct Obj {
     pub via_cyclic: bool,
     pub was_buffered: bool,
     pub processed_by_collection: bool,
+    pub resurrected: bool,
 }
 
 impl Obj {
@@ -101,6 +102,7 @@ impl Obj {
             via_cyclic: false,
             was_buffered: false,
             processed_by_collection: false,
+            resurrected: false,
         }
     }
     pub fn value_alive(&self) -> bool {
@@ -202,6 +204,15 @@ pub struct Model {
     pub dropped_this_pass: Vec<ObjId>,
     pub trace_seen_in_call: bool,
     pub threshold_changed: bool,
+    pub nontrace_since_pass: bool,
+    pub pass_count: u32,
+    pub leaf_layouts_freed: std::collections::BTreeSet<u8>,
+    pub free_paths: std::collections::BTreeSet<u8>, // 0 = reference counting, 1 = collector, 2 = try_unwrap
+    pub prog_ops: u32,
+    pub fault_op: Option<(u32, u32)>, // (op index, live objects) when the first fault fired
+    pub prev_buffer: std::collections::BTreeSet<ObjId>,
+    pub last_threshold: usize,
+    pub fault_counters_final: [u32; FaultKind::COUNT],
 }
 
 pub struct Tables {
@@ -342,6 +353,15 @@ impl World {
                 dropped_this_pass: Vec::new(),
                 trace_seen_in_call: false,
                 threshold_changed: false,
+                nontrace_since_pass: false,
+                pass_count: 0,
+                leaf_layouts_freed: Default::default(),
+                free_paths: Default::default(),
+                prog_ops: 0,
+                fault_op: None,
+                prev_buffer: Default::default(),
+                last_threshold: 0,
+                fault_counters_final: [0; FaultKind::COUNT],
             }),
             t: RefCell::new(Tables {
                 roots: Vec::new(),
@@ -645,6 +665,9 @@ impl World {
         t.roots.push(Some(Box::new(cc)));
         m.root_obj.push(Some(o));
         m.root_busy.push(false);
+        if m.frames.iter().any(|f| f.collector && matches!(f.kind, FrameKind::Finalize(_))) {
+            m.objs[o as usize].resurrected = true; // made reachable again by a finalizer of a running collection
+        }
         t.roots.len() - 1
     }
 
